@@ -156,6 +156,16 @@ impl Hdr {
             Hdr::Std(h) => h.tr,
         }
     }
+    /// The temporal reference as the decoder reports it (ten bits with a custom picture clock).
+    pub fn tr_full(&self) -> u16 {
+        match self {
+            Hdr::S(h) => h.tr as u16,
+            Hdr::Std(h) => match &h.plus {
+                Some(p) if p.ufep == 1 && p.opp.custom_pcf => ((p.etr as u16 & 3) << 8) | h.tr as u16,
+                _ => h.tr as u16,
+            },
+        }
+    }
     pub fn is_sorenson(&self) -> bool {
         matches!(self, Hdr::S(_))
     }
